@@ -48,6 +48,8 @@ type benv struct {
 	fields   []string          // state fields in order
 	fkinds   map[string]string // their kinds
 	extern   map[string]bex    // external calls (selector text -> term), e.g. c.sc.Scan()
+	loopCont func() string     // inside `for { }`: what `continue` / falling off the body yields
+	stateFns map[string]string // translated state methods of the receiver: name -> parameters to pass before the state
 }
 
 func (e *benv) bad(n ast.Node, why string) string {
@@ -412,7 +414,17 @@ func (e *benv) expr(n ast.Expr) bex {
 					}
 				}
 			}
-			// methods of the receiver itself that are translated (c.MessageIdentifier())
+			// a read-only accessor of the receiver whose body is one return statement: inline it
+			if sel, ok := v.Fun.(*ast.SelectorExpr); ok && len(v.Args) == 0 {
+				if rid, ok := sel.X.(*ast.Ident); ok && rid.Name == e.recvName {
+					if fd := e.x.findFunc("Client", sel.Sel.Name); fd != nil && len(fd.Body.List) == 1 &&
+						fd.Recv != nil && len(fd.Recv.List[0].Names) == 1 && fd.Recv.List[0].Names[0].Name == e.recvName {
+						if r, ok := fd.Body.List[0].(*ast.ReturnStmt); ok && len(r.Results) == 1 {
+							return e.expr(r.Results[0])
+						}
+					}
+				}
+			}
 		}
 		if sel, ok := v.Fun.(*ast.SelectorExpr); ok {
 			full := ""
@@ -763,6 +775,42 @@ func (e *benv) block(stmts []ast.Stmt, ret func([]ast.Expr) string, cont func() 
 		if !ok {
 			return e.bad(s, "assignment to a non-variable")
 		}
+		// x := c.M(...) for a translated state method M: the state is rebound, x gets its (single) result
+		if call, ok := s.Rhs[0].(*ast.CallExpr); ok && e.recvName != "" {
+			if sel, ok := call.Fun.(*ast.SelectorExpr); ok {
+				if rid, ok := sel.X.(*ast.Ident); ok && rid.Name == e.recvName {
+					if params, ok := e.stateFns[sel.Sel.Name]; ok {
+						st := make([]string, len(e.fields))
+						for i, f := range e.fields {
+							st[i] = e.vars[e.recvName+"."+f]
+						}
+						t := e.tmp()
+						gx := "v_" + id.Name
+						saved := map[string]string{}
+						for _, f := range e.fields {
+							saved[f] = e.vars[e.recvName+"."+f]
+							e.vars[e.recvName+"."+f] = "n_" + f + t
+						}
+						sx, hx := e.vars[id.Name]
+						e.vars[id.Name] = gx
+						ns := make([]string, len(e.fields))
+						for i, f := range e.fields {
+							ns[i] = "n_" + f + t
+						}
+						out := "(do " + t + " <- (g_Client_" + sel.Sel.Name + " " + params + " (" + strings.Join(st, ", ") + ")); let '(" + gx + ", (" + strings.Join(ns, ", ") + ")) := " + t + " in " + rest() + ")"
+						for _, f := range e.fields {
+							e.vars[e.recvName+"."+f] = saved[f]
+						}
+						if hx {
+							e.vars[id.Name] = sx
+						} else {
+							delete(e.vars, id.Name)
+						}
+						return out
+					}
+				}
+			}
+		}
 		// data := c.MeasurementData(): an opaque value determined by the current packet
 		if call, ok := s.Rhs[0].(*ast.CallExpr); ok && e.extern != nil && exprText(call) == e.recvName+".MeasurementData()" {
 			saved, had := e.vars[id.Name]
@@ -886,6 +934,11 @@ func (e *benv) block(stmts []ast.Stmt, ret func([]ast.Expr) string, cont func() 
 			e.vars[nme] = "v_" + nme
 		}
 		return out
+	case *ast.BranchStmt:
+		if s.Tok == token.CONTINUE && e.loopCont != nil {
+			return e.loopCont()
+		}
+		return e.bad(s, "unsupported branch statement")
 	case *ast.IncDecStmt:
 		id, ok := s.X.(*ast.Ident)
 		if !ok {
@@ -1069,7 +1122,8 @@ func (x *xl) clientFns(w *bytes.Buffer) {
 	for _, sp := range bytesFuncs {
 		known[bfnName(sp.recv, sp.name)] = true
 	}
-	for _, name := range []string{"Receive", "ScanMeasurementData"} {
+	stateFns := map[string]string{}
+	for _, name := range []string{"Receive", "ScanMeasurementData", "receiveUntil"} {
 		item := "client method " + name
 		fd := x.findFunc("Client", name)
 		coqName := "g_Client_" + name
@@ -1082,6 +1136,14 @@ func (x *xl) clientFns(w *bytes.Buffer) {
 			recvName: recv, fields: fields, fkinds: fk}
 		for _, f := range fields {
 			e.vars[recv+"."+f] = "s_" + f
+		}
+		e.stateFns = stateFns
+		for _, f := range fd.Type.Params.List {
+			if bkind(x.info.TypeOf(f.Type)) == "int" {
+				for _, nm := range f.Names {
+					e.vars[nm.Name] = "v_" + nm.Name
+				}
+			}
 		}
 		e.extern = map[string]bex{
 			recv + ".sc.Scan()":  {"sc_scan", true},
@@ -1114,18 +1176,41 @@ func (x *xl) clientFns(w *bytes.Buffer) {
 			c := e.combine(ops, func(a []string) string { return "(" + strings.Join(append(a, st), ", ") + ")" })
 			return c.monadic()
 		}
-		body := e.block(fd.Body.List, ret, nil)
-		if !e.ok {
-			body = "Pan"
-		}
 		rt := make([]string, len(rkinds))
 		for i, k := range rkinds {
 			rt[i] = coqKind(k)
 		}
+		if name == "receiveUntil" {
+			// for { ... }: one iteration; inl = go round again, inr = returned
+			loop, ok := fd.Body.List[0].(*ast.ForStmt)
+			if len(fd.Body.List) != 1 || !ok || loop.Init != nil || loop.Cond != nil || loop.Post != nil {
+				x.fail(item, "not a plain for { } loop")
+				continue
+			}
+			e.loopCont = func() string { return "(Val (inl " + state() + "))" }
+			retL := func(results []ast.Expr) string {
+				r := ret(results) // (Val (results..., state)) or a monadic term ending in it
+				i := strings.LastIndex(r, "Val ")
+				return r[:i] + "Val (inr " + strings.TrimSuffix(r[i+4:], ")") + "))"
+			}
+			body := e.block(loop.Body.List, retL, e.loopCont)
+			if !e.ok {
+				body = "Pan"
+			}
+			fmt.Fprintf(w, "Definition %s_step (sc_scan : bool) (sc_bytes : bytes) (sc_err : option Z) (v_until : Z) (st : gstate) : R (gstate + (%s * gstate)) :=\n  let '(s_message, s_mtData2, s_mtData2Packet, s_nextPacketIndex) := st in\n  %s.\n\n", coqName, strings.Join(rt, " * "), body)
+			continue
+		}
+		body := e.block(fd.Body.List, ret, nil)
+		if !e.ok {
+			body = "Pan"
+		}
 		params := "(sc_scan : bool) (sc_bytes : bytes) (sc_err : option Z)"
+		pass := "sc_scan sc_bytes sc_err"
 		if name == "ScanMeasurementData" {
 			params = "(md_is_nil : bytes -> bool) (md_unmarshal : bytes -> bytes -> option Z)"
+			pass = "md_is_nil md_unmarshal"
 		}
+		stateFns[name] = pass
 		fmt.Fprintf(w, "Definition %s %s (st : gstate) : R (%s * gstate) :=\n  let '(s_message, s_mtData2, s_mtData2Packet, s_nextPacketIndex) := st in\n  %s.\n\n", coqName, params, strings.Join(rt, " * "), body)
 	}
 }
